@@ -120,14 +120,14 @@ package entry
 //@ func NewOrderedMapFromEntries
 //@   requires forall i int :: 0 <= i && i < len(entries) && entries[i] != nil ==> typeis(entries[i], "*Entry")
 //@   ensures isOM(result) && fresh(result) && fresh(result.(*OrderedMap).values)
-//@   ensures forall i int :: 0 <= i && i < len(entries) && ref(entries[i]) != nil ==> has(result.(*OrderedMap).values, ehash(entries[i]))
-//@   ensures forall k string :: has(result.(*OrderedMap).values, k) ==> exists i int :: 0 <= i && i < len(entries) && ref(entries[i]) != nil && ehash(entries[i]) == k && result.(*OrderedMap).values[k] == entries[i]
+//@   ensures forall i int :: 0 <= i && i < len(entries) && entries[i] != nil && ref(entries[i]) != nil ==> has(result.(*OrderedMap).values, ehash(entries[i]))
+//@   ensures forall k string :: has(result.(*OrderedMap).values, k) ==> exists i int :: 0 <= i && i < len(entries) && entries[i] != nil && ref(entries[i]) != nil && ehash(entries[i]) == k && result.(*OrderedMap).values[k] == entries[i]
 //@   ensures len(result.(*OrderedMap).keys) <= len(entries)
 //@   lockensures held[result.(*OrderedMap).lock] == 0
 //@   loop 0
 //@     invariant isOM(orderedMap) && fresh(orderedMap) && fresh(orderedMap.(*OrderedMap).values)
-//@     invariant forall i int :: 0 <= i && i < $k && ref(entries[i]) != nil ==> has(orderedMap.(*OrderedMap).values, ehash(entries[i]))
-//@     invariant forall k string :: has(orderedMap.(*OrderedMap).values, k) ==> exists i int :: 0 <= i && i < $k && ref(entries[i]) != nil && ehash(entries[i]) == k && orderedMap.(*OrderedMap).values[k] == entries[i]
+//@     invariant forall i int :: 0 <= i && i < $k && entries[i] != nil && ref(entries[i]) != nil ==> has(orderedMap.(*OrderedMap).values, ehash(entries[i]))
+//@     invariant forall k string :: has(orderedMap.(*OrderedMap).values, k) ==> exists i int :: 0 <= i && i < $k && entries[i] != nil && ref(entries[i]) != nil && ehash(entries[i]) == k && orderedMap.(*OrderedMap).values[k] == entries[i]
 //@     invariant len(orderedMap.(*OrderedMap).keys) <= $k
 //@     lockinvariant held[orderedMap.(*OrderedMap).lock] == 0
 //@     loopmodifies orderedMap.(*OrderedMap).keys, mapof(orderedMap.(*OrderedMap).values)
@@ -247,6 +247,7 @@ package entry
 //@   lockrequires entries == nil || held[entries.(*OrderedMap).lock] >= 0
 //@   ensures [find-heads-returns-entries-of-the-map] forall i int :: 0 <= i && i < len(result) ==> validEntry(result[i]) && (exists k string :: has(entries.(*OrderedMap).values, k) && entries.(*OrderedMap).values[k] == result[i])
 //@   ensures entries == nil ==> len(result) == 0
+//@   ensures result == nil || fresh(result)
 //@   loop 0
 //@     invariant fresh(items)
 //@   loop 1
